@@ -275,6 +275,9 @@ def run_property(pid, tier, seed):
 
     anchors = property_anchors(pid)
     parts = [p for p in spec["parts"] if tier in p.get("tiers", ("quick", "thorough"))]
+    only = os.environ.get("VERIF_ONLY_PARTS")  # exploration aid (never used by MANIFEST commands): run a subset of the parts
+    if only:
+        parts = [p for p in parts if any(p["name"].endswith(x) or p["name"] == x for x in only.split(","))]
     inconclusive = []
     # build (deduplicated), in parallel
     targets = {}
